@@ -339,7 +339,7 @@ def conditions(tier):
                 eff = opt if ba is None else ba
                 if q and (ba, opt) == (None, False):
                     continue        # the plain C03.replace conditions
-                for (n, m, k) in (([(16, 8, 3)] if eff else [(4, 1, 2)]) if q else [(9, 1, 2), (10, 2, 1), (16, 8, 3), (17, 2, 0)]):
+                for (n, m, k) in (([(16, 8, 3)] if eff else ([(4, 1, 2), (5, 2, 1)] if (ba, opt) == (False, False) else [(4, 1, 2)])) if q else [(9, 1, 2), (10, 2, 1), (16, 8, 3), (17, 2, 0)]):
                     add(f'C07.replace-select[{c},n={n},old={m},new={k},bytealigned={ba},option={opt}]', h_replace(c, n, m, k, n + 1, (ba, opt, 'whole') if q else (ba, opt)),
                         f'all contents ({n}-bit data, {m}-bit old, {k}-bit new) x ' + ('end' if q else 'start,end') + f' in [-{n + 1},{n + 1}] or None x count in [-1,3] or None; bytealigned={ba}, options.bytealigned={opt}', D_REP, n=n, m=m, k=k)
     if q:
